@@ -15,8 +15,8 @@ var witnessCases = [][]string{
 	{"bsl/2", "null", "n:1", "n:-1"},
 	{"bsr/2", "null", "n:1", "n:-1"},
 	{"bsl/2", "null", "n:1", "b:9223372036854775808"},
-	{"bsl/2", "null", "n:1", "f:100000000000/1"},
-	{"bsl/2", "null", "f:3/2", "f:nan"},
+	{"bsl/2", "null", "n:1", "f:390625p8"},
+	{"bsl/2", "null", "f:3p-1", "f:nan"},
 	{"bsl/2", "null", "n:1", "n:63"},
 	{"bsl/2", "null", "n:1", "n:64"},
 	{"bsl/2", "null", "n:-1", "n:200"},
@@ -25,12 +25,12 @@ var witnessCases = [][]string{
 	{"bsl/2", "null", "b:18446744073709551616", "n:3"},
 	{"bsr/2", "null", "b:18446744073709551616", "n:3"},
 	{"bsr/2", "null", "n:-9223372036854775808", "n:70"},
-	{"bsr/2", "null", "f:-3/2", "f:1/2"},
+	{"bsr/2", "null", "f:-3p-1", "f:1p-1"},
 	{"band/2", "null", "n:-1", "b:18446744073709551616"},
 	{"bor/2", "null", "b:-18446744073709551616", "n:5"},
-	{"bxor/2", "null", "f:179769313486231570814527423731704356798070567525844996598917476803157260780028538760589558632766878171540458953514382464234321326889464182768467546703537516986049910576551282076245490090389328944075868508455133942304583236903222948165808559332123348274797826204144723168738177180919299881250404026184124858368/1", "n:1"},
+	{"bxor/2", "null", "f:9007199254740991p971", "n:1"},
 	{"bnot/0", "b:18446744073709551616"},
-	{"bnot/0", "f:1/2"},
+	{"bnot/0", "f:1p-1"},
 	{"to_toml/1", "O(a=n:1)", "O(indent=n:-1)"},
 	{"to_toml/1", "O(a=O(b=n:1))", "O(indent=n:1025)"},
 	{"to_toml/1", "O(a=O(b=n:1))", "O(indent=n:1024)"},
@@ -177,6 +177,36 @@ func generate(fns []fnInfo, p poolT, cfg hlib.Config, rnd *hlib.Rand) []pcase {
 							pos[a], pos[b] = va, vb
 							cases = append(cases, pcase{fn: fi, pos: pos})
 							n++
+						}
+					}
+				}
+			}
+		case cfg.Thorough() && k == 3 && budget == 0:
+			// arity 2: exhaustive over the core pool in all three positions …
+			var core []int
+			for i, pv := range p.vals {
+				if pv.core {
+					core = append(core, i)
+				}
+			}
+			for _, a := range core {
+				for _, b := range core {
+					for _, c := range core {
+						cases = append(cases, pcase{fn: fi, pos: []int{a, b, c}})
+					}
+				}
+			}
+			// … and every pair of values of the whole pool in every pair of positions
+			for a := 0; a < k; a++ {
+				for b := a + 1; b < k; b++ {
+					for va := 0; va < P; va++ {
+						for vb := 0; vb < P; vb++ {
+							if p.vals[va].core && p.vals[vb].core {
+								continue
+							}
+							pos := []int{core[rnd.Intn(len(core))], core[rnd.Intn(len(core))], core[rnd.Intn(len(core))]}
+							pos[a], pos[b] = va, vb
+							cases = append(cases, pcase{fn: fi, pos: pos})
 						}
 					}
 				}
